@@ -191,6 +191,10 @@ def histories(ctx, tmp, cfgname, req, impl):
             b.registry.registerRun(r_)
         tag = f"tag{h}"
         b.registry.registerCollection(tag, CollectionType.TAGGED)
+        # a chain that holds the second run: removing that run is refused as long as it is a member
+        chain = f"chain{h}"
+        b.registry.registerCollection(chain, CollectionType.CHAINED)
+        b.registry.setCollectionChain(chain, [runs[1]])
         if mirrored:
             req.append("st new"), impl.append("ok")
         refs, truth, ident, mid = {}, {}, {}, {}
@@ -237,18 +241,39 @@ def histories(ctx, tmp, cfgname, req, impl):
                     obj[0] = 99
                 new = (ref, keep, f"put {tname} {did.get('physical_filter', did.get('detector'))!r} {run[-1]}")
             elif r < 0.52 and cfgname != "inmem":
-                det += 1
-                run = rng.choice(runs)
-                obj = gen_dict(rng, 2)
+                # one ingest call with several files, handed over in an order that is not the order of their data IDs
                 import yaml
 
-                p = os.path.join(ext, f"in{det}.yaml")
-                with open(p, "w") as fh:
-                    yaml.dump(obj, fh)
-                ref = DatasetRef(types["tdict"], {"instrument": "I", "detector": det}, run=run)
-                b.ingest(FileDataset(path=p, refs=[ref]), transfer="copy")
+                run = rng.choice(runs)
+                n_files = rng.choice([1, 2, 3])
+                dets = list(range(det + 1, det + 1 + n_files))
+                det += n_files
+                order = dets[::-1] if rng.random() < 0.5 else rng.sample(dets, len(dets))
+                fds, made = [], []
+                for d_ in order:
+                    obj = gen_dict(rng, 2)
+                    obj["__file_of_detector__"] = d_
+                    p = os.path.join(ext, f"in{d_}.yaml")
+                    with open(p, "w") as fh:
+                        yaml.dump(obj, fh)
+                    ref = DatasetRef(types["tdict"], {"instrument": "I", "detector": d_}, run=run)
+                    fds.append(FileDataset(path=p, refs=[ref]))
+                    made.append((ref, copy.deepcopy(obj), p))
+                b.ingest(*fds, transfer="copy")
+                for ref, keep, p in made[:-1]:
+                    os.remove(p)
+                    gid += 1
+                    refs[gid], truth[gid] = ref, keep
+                    ident[gid] = (ref.datasetType.name, tuple(sorted(ref.dataId.required.items())), ref.run, ref.id)
+                    live.add(gid)
+                    mid[gid] = gid
+                    if mirrored:
+                        pp = b.getURI(ref).ospath
+                        c = contentno.setdefault(repr(canon(keep)), len(contentno) + 1)
+                        req.append(f"st put {gid} {pathno.setdefault(pp, len(pathno) + 1)} {c} {os.path.getsize(pp)}"), impl.append("ok")
+                ref, keep, p = made[-1]
                 os.remove(p)
-                new = (ref, copy.deepcopy(obj), f"ingest {det} {run[-1]}")
+                new = (ref, keep, f"ingest {order} {run[-1]}")
             elif r < 0.62 and cfgname != "inmem":
                 det += 1
                 obj = gen_dict(rng, 2)
@@ -312,11 +337,25 @@ def histories(ctx, tmp, cfgname, req, impl):
                     fkey = refs[i].dataId.get("physical_filter")
                 ops.append(f"{'purge' if purge else 'unstore'} {ids}")
                 interesting = interesting or bool(live)
+            elif r > 0.96:
+                # a removal that is refused as a whole (the run is a member of a chain): nothing may change, now or at a later
+                # removal of something else
+                try:
+                    b.removeRuns([runs[1]], unstore=True)
+                    ops.append("removeRuns-of-chained-run accepted")
+                    ctx.broken.append("correspondence: removeRuns of a run that is a member of a CHAINED collection was accepted")
+                    break
+                except Exception as e:
+                    ops.append(f"removeRuns-refused {type(e).__name__}")
             else:
                 run = rng.choice(runs)
+                if run == runs[1]:
+                    b.registry.setCollectionChain(chain, [])
                 ids = sorted(i for i in refs if refs[i].run == run and i in ident)
                 b.removeRuns([run], unstore=True)
                 b.registry.registerRun(run)
+                if run == runs[1]:
+                    b.registry.setCollectionChain(chain, [runs[1]])
                 for i in ids:
                     if i in live and mirrored:
                         req.append(f"st remove {mid[i]}"), impl.append("ok")
@@ -379,6 +418,7 @@ def histories(ctx, tmp, cfgname, req, impl):
             ctx.nontrivial.add((cfgname, tuple(ops)))
         ctx.sample({"config": cfgname, "ops": ops[:8]}, cap=3)
         # leave nothing behind
+        b.registry.removeCollection(chain)
         b.removeRuns(runs, unstore=True)
         b.registry.removeCollection(tag)
 
